@@ -21,7 +21,14 @@ import (
 	"golang.org/x/tools/go/ssa/ssautil"
 )
 
-const repoDir = "/repo"
+// repoDir is /repo for every registered command; SYMGO_REPO exists only so that seeded changes can be
+// examined in scratch worktrees in parallel during development (the evidence records the directory used).
+var repoDir = func() string {
+	if d := os.Getenv("SYMGO_REPO"); d != "" {
+		return d
+	}
+	return "/repo"
+}()
 const repoMod = "github.com/trajectoryjp/spatial_id_go/v4"
 
 var verifDir = "/verif"
